@@ -396,7 +396,60 @@ func fineExitWhileScanning(seed uint64, inflight bool) []lib.Case {
 	return []lib.Case{cr.finish(name+"#"+strconv.FormatUint(seed, 10), seed, nil, nil)}
 }
 
+// The consumer vanishes while its pump holds a dequeued message: nsqd registers the message
+// in flight BEFORE it writes it, so the failed write leaves it owed (it times out and goes
+// to the next consumer).  Registering only after a successful write would lose it.
+func fineDisconnectWhileDelivering(seed uint64) []lib.Case {
+	cr := newFineCase(seed, 3)
+	cr.opCreateTopic(1)
+	cr.opCreateChan(1, 1)
+	k1 := cr.opConnect(false, false)
+	cr.opSub(k1, 1, 1)
+	cr.opRdy(k1, 1)
+	reached, release := nsqd.VerifArmPark("clientpump:have-msg", 1)
+	ids, total, now := cr.rawPub(1, 1)
+	tg := cr.nextTag
+	ok := waitReached(reached, 3*time.Second)
+	cr.tag(fmt.Sprintf("delivery-parked=%v", ok))
+	cr.ev(fmt.Sprintf("EOp (OPub 1 false [%s]%%N %d 0%%Z %s) ROk", strings.Join(ids, ";"), total, z(now)))
+	if !ok {
+		release()
+		return []lib.Case{cr.finish("deliver-vs-disconnect-setup-failed#"+strconv.FormatUint(seed, 10), seed, nil, nil)}
+	}
+	k1.c.close()
+	// wait until nsqd has dropped the connection (client removed from the channel, socket closed)
+	deadline := time.Now().Add(3 * time.Second)
+	for time.Now().Before(deadline) {
+		n := 0
+		for _, tp := range cr.statsInproc().Topics {
+			for _, ch := range tp.Channels {
+				n += len(ch.Clients)
+			}
+		}
+		if n == 0 {
+			break
+		}
+		time.Sleep(2 * time.Millisecond)
+	}
+	time.Sleep(50 * time.Millisecond)
+	now2 := cr.now()
+	release()
+	// in the order of nsqd's own critical sections: the message was registered in flight
+	// for k1 (attempt 1), the write failed, the connection is gone
+	cr.ev(fmt.Sprintf("EOp (ODeliver %d %d %s) (RDelivered 1)", k1.k, tg, z(now2)))
+	k1.alive = false
+	cr.ev(fmt.Sprintf("EOp (ODisconnect %d) ROk", k1.k))
+	cr.nontriv = true
+	cr.after()
+	cr.opScan(1, 1, true, scanAll)
+	k2 := cr.opConnect(false, false)
+	cr.opSub(k2, 1, 1)
+	cr.opRdy(k2, 5)
+	return []lib.Case{cr.finish("deliver-vs-disconnect#"+strconv.FormatUint(seed, 10), seed, nil, nil)}
+}
+
 var fineScenarios = map[string]func(uint64) []lib.Case{
+	"deliver-vs-disconnect": fineDisconnectWhileDelivering,
 	"exit-vs-timeout-scan":  func(seed uint64) []lib.Case { return fineExitWhileScanning(seed, true) },
 	"exit-vs-deferred-scan": func(seed uint64) []lib.Case { return fineExitWhileScanning(seed, false) },
 	"exit-vs-deliver":       fineExitWhileDelivering,
@@ -409,10 +462,10 @@ var fineScenarios = map[string]func(uint64) []lib.Case{
 
 // which forced interleavings each property's profile runs
 var fineByProfile = map[string][]string{
-	"c01": {"pump-vs-sub"},
+	"c01": {"pump-vs-sub", "deliver-vs-disconnect"},
 	"c08": {"deliver-vs-empty", "sub-vs-topic-delete", "fin-vs-empty"},
 	"c03": {"fin-vs-empty", "deliver-vs-empty"},
 	"c13": {"fin-vs-empty", "deliver-vs-empty"},
-	"c02": {},
+	"c02": {"deliver-vs-disconnect"},
 	"c05": {"exit-vs-deliver", "exit-vs-req", "exit-vs-timeout-scan", "exit-vs-deferred-scan"},
 }
